@@ -36,6 +36,9 @@ type c13Op struct {
 	Kind   string   `json:"kind"` // get | set | append | gat | delete-missing | add-existing
 	Keys   []string `json:"keys,omitempty"`
 	Quiets []bool   `json:"quiets,omitempty"`
+	// TextStyle: every key carries opaque 0 and is non-quiet, as the text parser
+	// sends a multi-key get (duplicated keys are then indistinguishable requests)
+	TextStyle bool `json:"text_style,omitempty"`
 }
 
 func c13Preload(f *fakemc.Server, callers int) {
@@ -88,6 +91,12 @@ func TestC13(t *testing.T) {
 					for j := rapid.IntRange(1, 4).Draw(t, "nkeys"); j > 0; j-- {
 						op.Keys = append(op.Keys, fmt.Sprintf("c%d-r%d", ci, rapid.IntRange(0, 3).Draw(t, "rk")))
 						op.Quiets = append(op.Quiets, rapid.Bool().Draw(t, "quiet"))
+					}
+					if rapid.IntRange(0, 3).Draw(t, "textStyle") == 0 {
+						op.TextStyle = true
+						for j := range op.Quiets {
+							op.Quiets[j] = false
+						}
 					}
 				}
 				plans[ci] = append(plans[ci], op)
@@ -153,6 +162,9 @@ func TestC13(t *testing.T) {
 						opq := make([]uint32, len(op.Keys))
 						for j := range opq {
 							opq[j] = uint32(100*s + j)
+							if op.TextStyle {
+								opq[j] = 0
+							}
 						}
 						resps, err := execGetFull(h, op.Keys, opq, op.Quiets, false)
 						hasPoison := false
@@ -168,13 +180,25 @@ func TestC13(t *testing.T) {
 								problems[ci] = fmt.Sprintf("caller %d op %d get %v: no error but %d responses for %d requested keys: %v", ci, s, op.Keys, len(resps), len(op.Keys), resps)
 							}
 							seen := map[uint32]bool{}
+							owed := map[string]int{}
+							for _, k := range op.Keys {
+								owed[k]++
+							}
 							for _, r := range resps {
-								j := int(r.Opaque) - 100*s
-								if j < 0 || j >= len(op.Keys) || seen[r.Opaque] || r.Key != op.Keys[j] || r.Quiet != op.Quiets[j] {
-									problems[ci] = fmt.Sprintf("caller %d op %d get %v: response %s does not belong to this request (or is a duplicate)", ci, s, op.Keys, r)
-									continue
+								if op.TextStyle {
+									if owed[r.Key] == 0 || r.Opaque != 0 || r.Quiet {
+										problems[ci] = fmt.Sprintf("caller %d op %d get %v (all opaque 0): response %s does not belong to this request (or is one too many for its key)", ci, s, op.Keys, r)
+										continue
+									}
+									owed[r.Key]--
+								} else {
+									j := int(r.Opaque) - 100*s
+									if j < 0 || j >= len(op.Keys) || seen[r.Opaque] || r.Key != op.Keys[j] || r.Quiet != op.Quiets[j] {
+										problems[ci] = fmt.Sprintf("caller %d op %d get %v: response %s does not belong to this request (or is a duplicate)", ci, s, op.Keys, r)
+										continue
+									}
+									seen[r.Opaque] = true
 								}
-								seen[r.Opaque] = true
 								var rk int
 								fmt.Sscanf(strings.SplitN(r.Key, "-r", 2)[1], "%d", &rk)
 								if r.Miss || !bytes.Equal(r.Data, c13Value(ci, rk)) || r.Flags != c13Flags(ci, rk) {
